@@ -50,6 +50,7 @@ type Obs struct {
 	RowsOpen int64    `json:"rows_open"`        // result sets still open (connection held) after the response
 	Panic    string   `json:"panic,omitempty"`
 	BodyLen  int      `json:"body_len"`
+	BodyHead string   `json:"body_head,omitempty"` // first bytes of an error body
 	JSONOk   bool     `json:"json_ok"`
 	Ms       int64    `json:"ms"`
 	Queries  int64    `json:"queries"`
@@ -234,6 +235,13 @@ func runCase(c *Case, deadline time.Duration) *Obs {
 	}
 	cancel() // what net/http does with the request context once the handler returned
 	obs.BodyLen = rec.Body.Len()
+	if obs.Status >= 400 {
+		bh := rec.Body.Bytes()
+		if len(bh) > 160 {
+			bh = bh[:160]
+		}
+		obs.BodyHead = strings.ToValidUTF8(string(bh), "?")
+	}
 	var js interface{}
 	obs.JSONOk = json.Unmarshal(rec.Body.Bytes(), &js) == nil
 	obs.Queries = atomic.LoadInt64(&queriesSeen) - q0
